@@ -21,3 +21,17 @@ Theorem SrcTie_C16_enum_members :
   = map enc_full [SYNTAX_ERROR; PASS; VALIDATION_ERROR; FAIL; SKIPPED; XFAIL; XPASS; HARD_ERROR; INTERNAL_ERROR].
 Proof. exact tie_full_members. Qed.
 Print Assumptions SrcTie_C16_enum_members.
+
+(** the exit values of a suite run (test_suite/exit_values.py): OK/0 when every case succeeded, ERROR/4 otherwise,
+    INVALID_SUITE/3 when the suite cannot be read *)
+Theorem SrcTie_C16_suite_exit_values :
+  (py_attr_exit_code py_exit_values_ALL_PASS = VInt (fst (progress_final []))
+   /\ py_attr_exit_identifier py_exit_values_ALL_PASS = VStr "OK") /\
+  (forall r rs, progress_success r = false ->
+     py_attr_exit_code py_exit_values_FAILED_TESTS = VInt (fst (progress_final (r :: rs)))) /\
+  py_attr_exit_identifier py_exit_values_FAILED_TESTS = VStr "ERROR" /\
+  (forall rep fs root outcome e, read_root fs root = inl e ->
+     py_attr_exit_code py_exit_values_INVALID_SUITE = VInt (run_exit (run_suite rep fs root outcome))) /\
+  py_attr_exit_identifier py_exit_values_INVALID_SUITE = VStr "INVALID_SUITE".
+Proof. exact tie_suite_exit_values. Qed.
+Print Assumptions SrcTie_C16_suite_exit_values.
